@@ -172,6 +172,15 @@ pub struct Scenario {
 }
 
 impl Scenario {
+    /// Hash of the application scripts (connect and accept calls with their stream scripts).
+    /// Families whose oracle expects a particular conversation record it as a parameter: a
+    /// minimiser that edits the scripts then leaves the space the oracle can judge.
+    pub fn app_scripts_hash(&self) -> i64 {
+        let mut h = crate::util::Fnv::default();
+        h.bytes(serde_json::to_string(&(&self.connects, &self.accepts)).unwrap_or_default().as_bytes());
+        (h.0 >> 1) as i64
+    }
+
     pub fn addr(&self, node: usize) -> SocketAddr {
         // Indices beyond the real nodes address scripted peers / attackers (same family).
         let ipv6 = self.nodes.get(node).map(|n| n.ipv6).unwrap_or_else(|| self.nodes[0].ipv6);
